@@ -413,11 +413,16 @@ def verify(contract, timeout_ms=20000, case_filter=None, mutate=None, verbose=Fa
             ctx.aux = aux
             fn = resolve(I, mod, qual)
             I.entry_depth = len(I.fn_stack)
+            from .interp import _stamp
+            call_stamp = next(_stamp)
+            n_writes0 = len(I.writes)
             try:
                 v = I.call(fn, args, kwargs)
                 out = Outcome('return', v)
             except PyExc as e:
                 out = Outcome('raise', exc=e.exc)
+            if getattr(contract, 'frame', True):
+                frame_obligations(I, contract, args, kwargs, out, call_stamp, I.writes[n_writes0:])
             contract.check(I, case, aux, out)
             ctx.outcome_label = out.kind if out.kind == 'return' else 'raise:' + out.exc.cls.name
             return (out.kind, out)
@@ -426,6 +431,8 @@ def verify(contract, timeout_ms=20000, case_filter=None, mutate=None, verbose=Fa
         except Unsupported as e:
             rep.unsupported.append('%s: %s' % (label, e))
             rep.cases.append({'label': label, 'paths': 0, 'unsupported': str(e)})
+            if 'time budget' in str(e):
+                raise
             continue
         except Exception as e:
             rep.errors.append('%s: internal error %s: %s\n%s' % (label, type(e).__name__, e, traceback.format_exc()))
@@ -515,3 +522,97 @@ class LoopSpec(object):
 
     def keeps(self, env):
         return self._keeps
+
+
+# ---------------------------------------------------------------------------------------------
+# frame conditions (C13): "modifies nothing reachable from the arguments", "results share no mutable state with them"
+def _mutables(v, acc, seen, depth=0):
+    from .values import Seq, SymSeq, PDict, SymDict, NDArr, Obj, NT, OptVal
+    if id(v) in seen or depth > 6:
+        return
+    seen.add(id(v))
+    if isinstance(v, OptVal):
+        _mutables(v.val, acc, seen, depth + 1)
+    elif isinstance(v, NDArr):
+        acc.append(v)
+        if v.cls == 'FCSData' and v.attrs:
+            for x in v.attrs.values():
+                _mutables(x, acc, seen, depth + 1)
+    elif isinstance(v, Seq):
+        if v.kind == 'list':
+            acc.append(v)
+        for x in v.items:
+            _mutables(x, acc, seen, depth + 1)
+    elif isinstance(v, SymSeq):
+        if v.kind == 'list':
+            acc.append(v)
+        for (_, ov) in v.overlays:
+            _mutables(ov, acc, seen, depth + 1)
+    elif isinstance(v, (PDict, SymDict)):
+        acc.append(v)
+        if isinstance(v, PDict):
+            for x in v.vals:
+                _mutables(x, acc, seen, depth + 1)
+    elif isinstance(v, NT):
+        for x in v.values:
+            _mutables(x, acc, seen, depth + 1)
+    elif isinstance(v, Obj):
+        acc.append(v)
+        for x in v.attrs.values():
+            _mutables(x, acc, seen, depth + 1)
+
+
+def frame_obligations(I, contract, args, kwargs, out, call_stamp, writes):
+    from .values import NDArr, SymSeq, Seq
+    P = I.ctx.prove
+    allowed = set(getattr(contract, 'frame_modifies', ()))
+    ins = []
+    seen = set()
+    for i, a in enumerate(args):
+        if i in allowed:
+            continue
+        _mutables(a, ins, seen)
+    for k, a in kwargs.items():
+        if k in allowed:
+            continue
+        _mutables(a, ins, seen)
+    allowed_objs = []
+    for i, a in enumerate(args):
+        if i in allowed:
+            _mutables(a, allowed_objs, set())
+    allowed_ids = set(id(o) for o in allowed_objs)
+    in_ids = dict((id(o), o) for o in ins)
+    bad = []
+    for w in writes:
+        owner = getattr(w, 'owner', None)
+        if id(w) in allowed_ids or (owner is not None and id(owner) in allowed_ids):
+            continue
+        if id(w) in in_ids or (getattr(w, 'birth', call_stamp) < call_stamp and not isinstance(w, type(None))):
+            bad.append(w)
+    what = ', '.join(sorted(set('%s%s' % (type(w).__name__, '(' + str(getattr(w, 'name', '') or '') + ')') for w in bad))) or 'nothing'
+    P('frame.arguments-not-modified[%s]' % what, len(bad) == 0, kind='frame')
+    # contents of symbolic input arrays are what they were (writes through views included)
+    for o in ins:
+        if isinstance(o, NDArr) and getattr(o, 'ufn', None) is not None and o.view_of is None and id(o) not in allowed_ids:
+            idx = [I.ctx.fresh_int('fr_i%d' % d) for d in range(o.ndim)]
+            rng = [z3.And(0 <= ii, ii < I.np.dim_z(sd)) for ii, sd in zip(idx, o.shape)]
+            P('frame.events-of-%s-unchanged' % (o.name or 'argument'), z3.Implies(z3.And(*rng) if rng else z3.BoolVal(True), o.fn(*idx) == o.ufn(*idx)),
+              kind='frame', assume_after=False)
+    if out.kind != 'return':
+        return
+    mode = getattr(contract, 'frame_result', 'fresh')
+    if mode is None:
+        return
+    outs = []
+    _mutables(out.value, outs, set())
+    shared = []
+    tokens_in = set(o.elem_token for o in ins if isinstance(o, SymSeq) and o.elem_token is not None)
+    for o in outs:
+        if id(o) in in_ids:
+            shared.append(o)
+        elif isinstance(o, NDArr) and o.view_of is not None and id(o.root()) in in_ids and mode != 'may-view':
+            shared.append(o)
+        elif isinstance(o, SymSeq) and o.elem_token is not None and o.elem_token in tokens_in:
+            shared.append(o)
+    what = ', '.join(sorted(set(type(o).__name__ + ('(view)' if isinstance(o, NDArr) and o.view_of is not None else '') for o in shared))) or 'nothing'
+    P('frame.result-shares-no-mutable-state-with-the-arguments[%s]' % what, len(shared) == 0, kind='frame')
